@@ -251,6 +251,8 @@ func (o Op) String() string {
 		return fmt.Sprintf("SetClock(%d)", o.Clock)
 	case "GC":
 		return fmt.Sprintf("GC(adv=%dns)", o.Adv)
+	case "Advance":
+		return fmt.Sprintf("AdvanceWallClock(%dns)", o.Adv)
 	case "SampleRowKeys":
 		return fmt.Sprintf("SampleRowKeys(%s,coins=%v)", short(o.Table), o.Coins)
 	case "ListTables":
